@@ -76,9 +76,13 @@ impl ProcfsResolver {
     ) -> Result<OwnedFd, Error> {
         // These flags don't make sense for procfs and will just result in
         // confusing errors during lookup. O_TMPFILE contains multiple flags
-        // (including O_DIRECTORY!) so we have to check it separately.
+        // (including O_DIRECTORY!) so we have to check it separately -- and we
+        // check the bit that is not O_DIRECTORY, since that is the one which
+        // asks for a file to be created.
         let invalid_flags = OpenFlags::O_CREAT | OpenFlags::O_EXCL;
-        if !oflags.intersection(invalid_flags).is_empty() || oflags.contains(OpenFlags::O_TMPFILE) {
+        if !oflags.intersection(invalid_flags).is_empty()
+            || oflags.bits() & (libc::O_TMPFILE & !libc::O_DIRECTORY) != 0
+        {
             Err(ErrorImpl::InvalidArgument {
                 name: "flags".into(),
                 description: format!(
